@@ -1,5 +1,5 @@
 (* line driver for the C17 model.  input: one history per line, one character per call
-   (A F M S P = typed insertions, R = setFormatter with the previous formatter object again, 1..5 = the typed call of class attr/filter/formatter/sink/pipeline with a NULL pointer, a f m s p = clear<Class>, x = clear()).  output: after every
+   (A F M S P = typed insertions, R = setFormatter with the previous formatter object again, B G T Q = appendAttrHandler/appendFilter/appendSink/appendPipeline with the object most recently created for that class again, 1..5 = the typed call of class attr/filter/formatter/sink/pipeline with a NULL pointer, a f m s p = clear<Class>, x = clear()).  output: after every
    call the list as "<class><id>," items terminated by ';' — the same format as h_sorted.
    mode "model" (default): run_src (model with the source's configuration)
    mode "spec":  spec_list (the specification)
@@ -12,6 +12,7 @@ let cls_of = function 'A' -> Attr | 'F' -> Filt | 'M' -> Fmt | 'S' -> Snk | 'P' 
 let op_of c = match c with 'A' -> AppendAttr | 'F' -> AppendFilter | 'M' -> SetFormatter | 'R' -> SetFormatterAgain
   | 'S' -> AppendSink | 'P' -> AppendPipeline | 'a' -> Clear Attr | 'f' -> Clear Filt | 'm' -> Clear Fmt
   | 's' -> Clear Snk | 'p' -> Clear Pipe
+  | 'B' -> AppendAgain Attr | 'G' -> AppendAgain Filt | 'T' -> AppendAgain Snk | 'Q' -> AppendAgain Pipe
   | '1' -> NullCall Attr | '2' -> NullCall Filt | '3' -> NullCall Fmt | '4' -> NullCall Snk | '5' -> NullCall Pipe | _ -> ClearAll
 let show b r = List.iter (fun (c, i) -> Buffer.add_string b (Printf.sprintf "%c%d," (ch c) (int_of_nat i))) r; Buffer.add_char b ';'
 let parse_list s =
